@@ -416,7 +416,7 @@ func TestC17(t *testing.T) {
 	for _, s := range fixedCases() {
 		handle("fixed/"+s[0], s[1:], nil)
 	}
-	nSeq := run.Scale(8000, 160000)
+	nSeq := run.Scale(5000, 160000)
 	for i := 0; i < nSeq && run.Findings() < 20; i++ {
 		r := hx.NewRand(run.Seed, "C17", i)
 		if i%2 == 0 {
@@ -425,7 +425,7 @@ func TestC17(t *testing.T) {
 			handle(fmt.Sprintf("seed%d/exist%d", run.Seed, i), genExist(r), nil)
 		}
 	}
-	nConc := run.Scale(4500, 90000)
+	nConc := run.Scale(3000, 90000)
 	for i := 0; i < nConc && run.Findings() < 20; i++ {
 		r := hx.NewRand(run.Seed, "C17conc", i)
 		switch i % 3 {
